@@ -559,3 +559,5 @@ def check(case: dict[str, Any], rec: Any) -> None:
 
 
 FINDINGS: dict[str, Any] = {}
+
+LEVEL_NOTE += " Rounds 13-14: tier B over CHP / EV / battery meters and the battery pool's own formula over two meters."
